@@ -1,5 +1,6 @@
 import GrinVerif.Drv.Common
 import GrinVerif.Model.Chain
+import GrinVerif.Model.ChainImpl
 /-! Driver glue for the `chain` domain: block tree definitions shared by all subject chains,
 one model `Node` per subject. -/
 namespace GV.Drv.ChainD
@@ -9,6 +10,9 @@ structure St where
   outs : List OutDef := []
   blks : List Blk := []
   nodes : List (String × Node) := []
+  /-- parallel run of the incremental txhashset model (`Model/ChainImpl.lean`), per subject:
+  the block the txhashset is at, and the txhashset (`none` after a failed move) -/
+  impls : List (String × Nat × Option TxHS) := []
 
 def stripPfx (s : String) (n : Nat) : String := (s.drop n).toString
 
@@ -62,6 +66,39 @@ def showObs (n : Node) (p : Params) : String :=
   let u := sortNat (n.reportedUtxo p)
   s!"head=b{n.head} hhead=b{n.hhead} utxo=[{",".intercalate (u.map fun o => s!"o{o}")}]"
 
+/-- the incremental txhashset follows the model's head: rewind to the fork point, apply the other
+branch (`switchTo` = `rewind_and_apply_fork`) -/
+def implFollow (n : Node) (cur : Nat × Option TxHS) : Nat × Option TxHS :=
+  if cur.1 == n.head then cur else
+  match cur.2, n.path cur.1, n.path n.head with
+  | some S, some po, some pn =>
+    match switchTo S po pn with
+    | .ok S' => (n.head, some S')
+    | .error _ => (n.head, none)
+  | _, _, _ => (n.head, none)
+
+def setImpl (st : St) (s : String) (v : Nat × Option TxHS) : St :=
+  { st with impls := (s, v) :: st.impls.filter (·.1 != s) }
+
+/-- move the subject's txhashset model to the head of its node model -/
+def followImpl (st : St) (s : String) (n : Node) : St :=
+  match st.impls.find? (·.1 == s) with
+  | some (_, cur) => setImpl st s (implFollow { n with outs := st.outs, blks := st.blks } cur)
+  | none => st
+
+/-- the unspent set the txhashset model reports, in the format of `showObs` -/
+def showImplUtxo (S : TxHS) : String :=
+  s!"utxo=[{",".intercalate ((sortNat S.reported).map fun o => s!"o{o}")}]"
+
+/-- on an `obs` line: the implementation's unspent set against the txhashset model's -/
+def cmpImplObs (st : St) (s : String) (impl : String) : Verdict :=
+  match st.impls.find? (·.1 == s) with
+  | some (_, _, some S) =>
+    let m := showImplUtxo S
+    if (impl.splitOn " ").contains m then .ok else .diff s!"txhashset-model {m}"
+  | some (_, _, none) => .diff "txhashset-model failed to follow the head"
+  | none => .ok
+
 /-- accept/reject is fixed by the property (spec); the error class is an internal observable -/
 def cmpDeliver (model impl : String) : Verdict :=
   if model = impl then .ok
@@ -80,12 +117,16 @@ def handle (st : St) (args : List String) (impl : String) : St × Verdict :=
     match parseBlk b rest with
     | some blk => ({ st with blks := st.blks ++ [blk] }, .ok)
     | none => (st, .unknown)
-  | ["new", s] => (setNode st s {}, .ok)
+  | ["new", s] =>
+    let S0 := match st.blks.find? (·.id == 0) with
+      | some g => (match applyBlockImpl {} g with | .ok S => some S | .error _ => none)
+      | none => none
+    (setImpl (setNode st s {}) s (0, S0), .ok)
   | ["deliver", s, b] =>
     match getNode st s, (idOf b).bind (fun i => st.blks.find? (·.id == i)) with
     | some n, some blk =>
       let (n', r) := deliverBlock p n blk
-      (setNode st s n', cmpDeliver r.toString impl)
+      (followImpl (setNode st s n') s n', cmpDeliver r.toString impl)
     | _, _ => (st, .unknown)
   | ["hdr", s, b] =>
     match getNode st s, (idOf b).bind (fun i => st.blks.find? (·.id == i)) with
@@ -95,7 +136,10 @@ def handle (st : St) (args : List String) (impl : String) : St × Verdict :=
     | _, _ => (st, .unknown)
   | ["obs", s] =>
     match getNode st s with
-    | some n => (st, cmpSpec (showObs n p) impl)
+    | some n =>
+      match cmpSpec (showObs n p) impl with
+      | .ok => (st, cmpImplObs st s impl)
+      | v => (st, v)
     | none => (st, .unknown)
   | ["reopen", s] =>
     -- a restart forgets the in-memory orphan pool; everything else is durable
